@@ -19,6 +19,10 @@ def gen_sleep_history(rng, with_faults: bool, versions=("2.0", "2.1", "2.2", "2.
         for c in (0, 1):
             if rng.random() < 0.9:
                 ops.append(("add_child", n, c, 3))
+                for t in (2, 3):
+                    if rng.random() < 0.6:
+                        # a stored value: what the gateway answers a `req` of the node with
+                        ops.append(("set_value", n, c, t, f"old{n}{c}{t}"))
     tag = 0
     pr = Profile(nodes=nodes, p_malformed=0.0, unknown_node=0.05)
     right = HB if v in ("2.0", "2.1") else PRE
@@ -48,8 +52,11 @@ def gen_sleep_history(rng, with_faults: bool, versions=("2.0", "2.1", "2.2", "2.
             ops.append(("recv", f"{n};255;0;0;17;{v}", ()))
             if rng.random() < 0.7:
                 ops.append(("recv", f"{n};{rng.choice([0, 1])};0;0;3;", ()))
-        elif x < 0.88:
+        elif x < 0.87:
             ops.append(("set_sleeping", rng.choice(nodes), rng.random() < 0.6))
+        elif x < 0.93:
+            # the node asks for its state (typically right after waking, before its wake signal)
+            ops.append(("recv", f"{rng.choice(nodes)};{rng.choice([0, 1])};2;0;{rng.choice([2, 3])};", ()))
         else:
             ops.append(("recv", gen_line(rng, pr)[1], ()))
     if with_faults:
